@@ -10,7 +10,8 @@ replaced in the harness process only — no source file is touched):
                   `notify_tag_updates`, `write_process_image`; and *inside* the sub-calls where a tick spends its
                   time: before the hardware read (`hwl.read_batch`), before every UOD command exec function
                   (`UodCommand.execute`, in the executing loop of the command manager) and before the hardware write
-                  (`hwl.write_batch`); and inside `PInterpreter.tick` after every sub-tick of the main generator and of each
+                  (`hwl.write_batch`) and, with the output UOD (`make_output_uod`), every time `write_process_image` picks up the
+                  value of one output register (`write.reg`); and inside `PInterpreter.tick` after every sub-tick of the main generator and of each
                   interrupt generator (`interp.subtick`, generator granularity)
   request thread  at the entry of each entry point, at the lock acquire (if the entry point takes the lock) and before
                   its sub-calls `_validate_control_command`, `CommandManager.schedule`, `MethodManager.merge_method`,
@@ -253,6 +254,48 @@ def instrument_engine(engine, coop: Coop) -> None:
                     raise HardwareLayerException("verif: read failed")
                 return _orig(*a, **k)
             setattr(hwl, name, batch)
+
+
+def make_output_uod(exec_log: list, images: list):
+    """The harness UOD of harness/engine_run.py (same tags and commands) on a recording hardware with two *output*
+    registers V1, V2 (safe value 0): every image `write_batch` gets is appended to `images`, and the conversion function
+    (`from_tag`) of each register is a yield point of the ticking thread (`write.reg`) — the place where
+    `write_process_image` picks up one output value after the other."""
+    from openpectus.engine.hardware import NullHardware, RegisterDirection
+    from openpectus.lang.exec.tags import Tag, TagDirection
+    from openpectus.lang.exec.uod import UodBuilder, UodCommand
+    from harness.engine_run import COND_TAGS, UOD_COMMANDS
+
+    class RecordingHW(NullHardware):
+        def write_batch(self, values, registers):
+            images.append({r.name: v for v, r in zip(values, registers)})
+            return super().write_batch(values, registers)
+
+    def make_exec(name: str, iterations: int):
+        def exec_fn(cmd: UodCommand, **kvargs):
+            exec_log.append(("exec", name, cmd.get_iteration_count() if hasattr(cmd, "get_iteration_count") else -1))
+            cmd._verif_iter = getattr(cmd, "_verif_iter", 0) + 1
+            if cmd._verif_iter >= iterations:
+                cmd.set_complete()
+        return exec_fn
+
+    def pick_up(value):
+        _yp("write.reg", "T")
+        return value
+
+    b = (UodBuilder().with_instrument("VerifUod").with_author("v", "v@example.org").with_filename(__file__)
+         .with_hardware(RecordingHW()).with_location("loc"))
+    for t in COND_TAGS:
+        b = b.with_tag(Tag(name=t, value=0))
+    for reg in ("V1", "V2"):
+        b = b.with_hardware_register(reg, RegisterDirection.Write, safe_value=0, from_tag=pick_up)
+        b = b.with_tag(Tag(reg, value=5, unit=None, direction=TagDirection.Output))
+    for name, it in UOD_COMMANDS.items():
+        b = b.with_command(name=name, exec_fn=make_exec(name, it),
+                           init_fn=(lambda n: (lambda cmd: exec_log.append(("init", n))))(name),
+                           finalize_fn=(lambda n: (lambda cmd: exec_log.append(("final", n))))(name))
+    b = b.with_command_overlap(["CmdB", "CmdC"])
+    return b.build()
 
 
 def run_schedule(coop: Coop, choices: str, workers: dict[str, Callable[[], Any]]) -> tuple[str, list[list[str]]]:
